@@ -254,6 +254,9 @@ func runHist(t *testing.T, id, tier string, scens []*hist.Scenario) int {
 		keychecks += st.KeyChecks
 		nonEmpty += st.NonEmptyPulls
 		exhaustive = exhaustive && st.Exhaustive
+		if st.StateDependent > 0 {
+			fmt.Printf("  %s: %d tasks behaved differently in a warm worker than from a cold start (process-global state); %d hits did not reproduce from a cold start and were dropped\n", sc.ID, st.StateDependent, st.Unconfirmed)
+		}
 		perScen[sc.ID] = map[string]any{"depth_target": sc.Depth, "depth_completed": st.MaxDepth, "states": st.States, "transitions": st.Transitions, "drain_runs": st.DrainRuns, "drain_ops": st.DrainOps, "levels": st.Levels, "per_op": st.PerOp, "distinct_responses": len(st.Responses), "responses": st.Responses, "exhaustive": st.Exhaustive, "wall_s": st.Wall}
 		for _, s := range st.Samples {
 			samples = append(samples, map[string]any{"scenario": sc.ID, "ops": s})
